@@ -34,6 +34,7 @@ pinned tree).  The recursive-merge semantics itself is not decided.
 """
 from ..core import get_facts, strip, strip_expect, cval, show, walk, locline, is_this_member, AnalysisBroken
 from ..e2_dom import Must
+from . import c02 as _c02
 
 HANDLER = 'sonic_json::SchemaHandler'
 STACKS = ('parent_st_', 'found_count_st_')
@@ -205,7 +206,7 @@ def clause_c(facts, rep, fs):
             truth = (sense != neg)          # truth value of the un-negated atom on this edge
             if c.get('k') == 'call' and c.get('cname') == 'IsObject' and on_parent(c) and truth:
                 out.add('isobj')
-            if c.get('k') == 'call' and c.get('cname') == 'node' and truth:
+            if c.get('k') == 'call' and c.get('cid') in _c02.push_fn_ids(facts, HANDLER) and truth:
                 out.add('pushed')
             if c.get('k') == 'bin' and c['op'] in ('==', '!=', '>') and cval(c['r']) == 0:
                 l = strip(c['l'])
@@ -410,7 +411,7 @@ def clause_model(facts, rep, tier):
             nfns.setdefault(f.short, f)
         if f.cls_qn == HANDLER and ('SAlloc' in f.name or 'SimpleAllocator' in f.name):
             hfns.setdefault(f.short, f)
-    need = ('StartObject', 'EndObject', 'StartArray', 'EndArray', 'Key', 'String', 'Null', 'Bool', 'Uint', 'Int', 'Double', 'node', 'stringImpl')
+    need = ('StartObject', 'EndObject', 'StartArray', 'EndArray', 'Key', 'String', 'Null', 'Bool', 'Uint', 'Int', 'Double')      # the SAX interface; private helpers are interpreted under whatever name they have
     rep.require(all(n in hfns for n in need) and 'destroy' in nfns and 'findMemberImpl' in nfns and 'kObject' in tags,
                 'C19: SchemaHandler / DNode functions of the freeing-allocator instantiation not all found')
     for n_ in need:
